@@ -93,6 +93,8 @@ def e1_check(pid, tier, replay):
         "formulas": names,
         "model_configs": [{k: m[k] for k in ("config", "ok", "states", "transitions", "wall_s")} for m in mc],
         "model_check_failures": [m["config"] for m in mc_bad],
+        "edge_cover": res.get("edge_cover", []),
+        "distinct_nontrivial": sum(s.get("edges", 0) for s in res.get("edge_cover", [])),
         "crashes": [{k: c[k] for k in ("script", "kind", "head", "frames")} for c in res["crashes"]],
         "engine_cached_dir": os.path.basename(d),
         "explanation": "TLC checks the formulas on Prunner.tla (states/transitions) and, as run-time monitor, on every line of "
